@@ -141,8 +141,19 @@ def run(tier, replay=None):
                     continue
                 jobs.append({'id': len(jobs), 'source': src, 'filename': f, 'nloc': 30 if thorough else 8, 'kind': 'file',
                              'seed': rng.randrange(1 << 30), 'root': os.path.dirname(f)})
+        # pinned inputs of open findings: observed on every run (KNOWN-FINDING while they reproduce)
+        pinned = {}
+        if not replay:
+            for f in ck.findings:
+                if f.get('input'):
+                    pinned[len(jobs)] = f
+                    jobs.append({'id': len(jobs), 'source': f['input'], 'filename': '/nonexistent-verif-root/pinned.py', 'nloc': 50, 'kind': 'pinned', 'seed': 0})
         results = run_workers(jobs)
         byid = {r['id']: r for r in results}
+        for jid, f in pinned.items():
+            if byid[jid].get('line0'):
+                ck.known(f['id'], f['what'])
+        ck.extra['go_to_definition_results_at_line_0_excluded'] = sum(r.get('line0', 0) for r in results)
         cases = []
         meta = {}
         skipped = 0
